@@ -363,12 +363,15 @@ impl Generator for ColumnSortingGenerator<'_> {
                         }))
                     })*
 
-                    // if what is missing is a flattened field then report that error
+                    // If what is missing is (inside) a flattened field then report that error.
+                    // Every unfinished flattened field has to be asked: one that has nothing
+                    // to serialize (no fields, or only skipped ones) answers `Ok`, which says
+                    // nothing about the flattened fields declared after it.
                     #(if !self.#flattened_visited_flag_names {
-                        return <<#flattened_types as #crate_path::SerializeRowByName>::Partial<#partial_lt> as #crate_path::PartialSerializeRowByName>::check_missing(self.#flattened_fields)
+                        <<#flattened_types as #crate_path::SerializeRowByName>::Partial<#partial_lt> as #crate_path::PartialSerializeRowByName>::check_missing(self.#flattened_fields)?;
                     })*
 
-                    ::std::unreachable!()
+                    ::std::result::Result::Ok(())
                 }
             }
         };
